@@ -43,6 +43,7 @@ var (
 	n     = flag.Int("n", 1000, "")
 	outp  = flag.String("out", "/dev/stdout", "")
 	casef = flag.String("cases", "", "model case file")
+	noenc = flag.Bool("noenc", false, "gc mode: encode with encoding/json only (the generated ENCODER is not run); used with SONIC_SYNC_GC, see notes/C10.md")
 	lines = flag.Bool("lines", false, "tables mode: shift every value so that the table is a legal line-number table (all values >= 1)")
 )
 
@@ -801,8 +802,16 @@ func gcMode() {
 		for i := 0; i < iters; i++ {
 			v := sampleBig(r)
 			// encode with the generated encoder; the standard library is the oracle
-			got, err := sonic.ConfigStd.Marshal(&v)
 			want, err2 := json.Marshal(&v)
+			var got []byte
+			var err error
+			if *noenc {
+				// SONIC_SYNC_GC makes the generated encoder call println_wrapper between OP_map_iter and OP_save, where
+				// the fresh map iterator lives in a register only: not GC-safe by construction of the debug hook
+				got, err = append([]byte(nil), want...), err2
+			} else {
+				got, err = sonic.ConfigStd.Marshal(&v)
+			}
 			if (err == nil) != (err2 == nil) {
 				fail("marshal error sonic=%v std=%v", err, err2)
 			}
